@@ -44,6 +44,7 @@ type (
 	}
 	SOld struct{ X SExpr }
 	SPre struct{ X SExpr } // value at the head of the enclosing loop iteration
+	SOther struct{ X SExpr } // axioms only: evaluate in a second, independently quantified heap
 	SIte struct{ C, A, B SExpr }
 	SDeref struct{ X SExpr }
 )
@@ -321,6 +322,8 @@ func (ps *sparser) postfix() SExpr {
 				x = SOld{args[0]}
 			} else if name == "pre" && len(args) == 1 {
 				x = SPre{args[0]}
+			} else if name == "other" && len(args) == 1 {
+				x = SOther{args[0]}
 			} else {
 				x = SCall{name, args}
 			}
